@@ -309,8 +309,16 @@ def check(run: Run) -> None:
         from . import c09
         R.share(run, "C10.m", c09, ["C09.d"])
 
+    with run.obligation("C10.n", "K4", "the key scans that create, re-use or drop per-key children enumerate the CURRENT members of the key set (slot_live): a slot whose key "
+                        "was removed in the previous cycle stays occupied until the source's next mutation and must not get a (ghost) child"):
+        R.membership_scans(run, "C10.n", [
+            (MAP, "create_live_key_entries", None, "one child per current key when the map primes or rebuilds"),
+            (MAP, "reconcile_compatible_key_source", None, "children kept / dropped / created against the new key source's current keys"),
+        ])
+
 
 VARIANTS = [
+    {"id": "n-seed-C10-5-build-scan-occupied", "expect": "C10.n", "edits": [{"file": MAP, "find": "                if (keys_set.slot_live(slot))\n                {\n                    create_entry_at_slot(view, context, storage, output_mutation, keys_set, slot, evaluation_time);", "replace": "                if (keys_set.slot_occupied(slot))\n                {\n                    create_entry_at_slot(view, context, storage, output_mutation, keys_set, slot, evaluation_time);"}]},
     {"id": "k-compatible-ignores-key-identity", "expect": "C10.k", "edits": [{"file": MAP, "find": "                if (slot >= keys_set.slot_capacity() || !keys_set.slot_occupied(slot) ||\n                    !entry->key.equals(keys_set.at_slot(slot)))", "replace": "                if (slot >= keys_set.slot_capacity() || !keys_set.slot_occupied(slot))"}]},
     {"id": "h-marker-reset-before-test", "expect": "C10.h", "edits": [{"file": MAP, "find": "                if (schedule.pulled)\n                {\n                    if (entry->schedule_context.pulled_when != schedule.when)\n                    {\n                        continue;\n                    }\n                    entry->schedule_context.pulled_when = MAX_DT;\n                }", "replace": "                if (schedule.pulled)\n                {\n                    entry->schedule_context.pulled_when = MAX_DT;\n                    if (entry->schedule_context.pulled_when != schedule.when)\n                    {\n                        continue;\n                    }\n                }"}]},
     {"id": "h-candidate-bounded-by-entry-count", "expect": "C10.h", "edits": [{"file": MAP, "find": "            if (slot == TS_DATA_NO_CHILD_ID || storage.entry_at(slot) == nullptr) { return; }\n            storage.evaluation_candidates.set(slot);", "replace": "            if (slot == TS_DATA_NO_CHILD_ID || slot >= storage.entries.entry_count() || storage.entry_at(slot) == nullptr) { return; }\n            storage.evaluation_candidates.set(slot);"}]},
